@@ -347,6 +347,9 @@ def _classify(name, op, a, U, labels):
         if kind_of(d) != "doc":
             labels.add("wrong_type")
             return
+        if U.links_cyclic(d):
+            labels.add("link_cycle")    # the op is skipped
+            return
         # what will finalize do?  Asked of the library itself, on a twin of the document: links that
         # resolve against the pre-state may stop doing so once earlier ones are resolved.
         if any(sec.include is not None for sec in U.subtree(d) if kind_of(sec) == "sec"):
